@@ -32,7 +32,7 @@ macro_rules! stats_struct {
 }
 stats_struct!(
     bodies, applies, deliveries, postponed, max_postponed_one_target, nested_replay, skipped_dead, skipped_dead_postponed, optional_taken, optional_skipped, polled_events, polled_in_tree, polled_reactions, payloads, payload_zero_listeners, payload_abort_release, doomed_insts, once_fired, once_retrigger_after_fire, revokes_applied, revoke_mid_dispatch, kills, kill_self, err_returns, excl_bodies, registrations, reg_dead_entity, slot_respawn, max_depth, roots, multi_kind_same_tree, sibling_reorder, frames, guaranteed_gc, guaranteed_poll, a1_ambiguous, ewr_bodies, ewr_nodata_ok, inserts_dead_at_apply, setifneq_equal, setifneq_diff, removal_reinsert_removal, sig_zero, entity_recursive_despawn, fifo_pairs_checked, sys_calls, reactors_per_key_ge7,
-    probes, ev_total, replayed
+    probes, ev_total, replayed, sys_recursive
 );
 
 #[derive(Clone, Debug)]
@@ -219,6 +219,7 @@ enum Issued
     WrRun(u8),
     EwrAdd(u8, EntId, u32),
     EwrRemove(u8, EntId, u8, Vec<MTrig>),
+    EwrRemoveMany(u8, Vec<(EntId, u8)>, Vec<MTrig>),
     CmdSyscall(SysKind, u8, u32),
 }
 
@@ -924,6 +925,7 @@ impl<'a> Checker<'a>
         {
             Cause::Rem(..) | Cause::Despawn(_) => fail!(self, "C08", "polled-missing", &["C01", "C02"], "instance {} was not scheduled for {:?}; next observed: {:?}", d.target, d.cause, ev),
             Cause::Manual | Cause::SysEvent(..) => fail!(self, "C02", "missing-run", &["C09"], "instance {} was not scheduled for {:?}; next observed: {:?}", d.target, d.cause, ev),
+            Cause::Ins(..) | Cause::Mut(..) | Cause::Resource(_) => fail!(self, "C01", "missing-reaction", &["C02", "C09", "C14"], "instance {} was not scheduled for {:?} (accessor / trigger call must cause one trigger); next observed: {:?}", d.target, d.cause, ev),
             _ => fail!(self, "C01", "missing-reaction", &["C02", "C09"], "instance {} was not scheduled for {:?}; next observed: {:?}", d.target, d.cause, ev),
         }
     }
@@ -1051,6 +1053,7 @@ impl<'a> Checker<'a>
                 };
                 let t = &self.insts[inst as usize];
                 if t.busy { fail!(self, "C09", "postponed-ran-too-early", &["C02"], "instance {inst} ran for {:?} while it is already executing", d.cause); }
+                if t.once_fired { fail!(self, "C15", "once-ran-twice", &["C18"], "one-off reactor {inst} ran again, for {:?}", d.cause); }
                 if !t.alive { fail!(self, "C18", "ran-dead-target", &["C07", "C02"], "instance {inst} ran for {:?} after it was despawned", d.cause); }
                 if d.optional || t.doomed || t.limbo { self.stats.optional_taken += 1; }
                 self.tree_depth += 1;
@@ -1442,6 +1445,18 @@ impl<'a> Checker<'a>
                 let sel = all.iter().enumerate().filter(|(i, _)| mask & (1 << i) != 0).map(|(_, t)| self.resolve(t)).collect();
                 Issued::EwrRemove(*k, slot(self, *s), *mask, sel)
             }
+            Op::EwrRemoveMany(k, parts) =>
+            {
+                let mut sel = Vec::new();
+                let mut ents = Vec::new();
+                for (sl, mask) in parts
+                {
+                    let all = crate::harness::ewr_trigs(*k, *sl);
+                    for (i, t) in all.iter().enumerate() { if mask & (1 << i) != 0 && sel.len() < crate::harness::MAX_BUNDLE { sel.push(self.resolve(t)); } }
+                    ents.push((slot(self, *sl), *mask));
+                }
+                Issued::EwrRemoveMany(*k, ents, sel)
+            }
             Op::CmdSyscall(kind, key, input) =>
             {
                 // `Commands::spawned_syscall` needs the id, which the harness only has once the system was spawned
@@ -1516,7 +1531,8 @@ impl<'a> Checker<'a>
         let alive = self.ents[e].alive;
         if !alive { self.stats.a1_ambiguous += 1; }
         let mut list = self.ent_deliveries(e, EKind::Mut(c), Cause::Mut(c, e));
-        list.extend(self.tw_deliveries(Key::Mut(c), Cause::Mut(c, e), !alive));
+        // (a trigger on an entity that is already gone still reaches the type-wide reactors: one trigger per call, C14/C01)
+        list.extend(self.tw_deliveries(Key::Mut(c), Cause::Mut(c, e), false));
         self.process_deliveries(list)
     }
 
@@ -1545,7 +1561,7 @@ impl<'a> Checker<'a>
         let alive = self.ents[e].alive;
         if !alive { self.stats.a1_ambiguous += 1; }
         let mut list = self.ent_deliveries(e, EKind::Ev(p), Cause::EntityEvent(p, id, e));
-        list.extend(self.tw_deliveries(Key::AnyEE(p), Cause::EntityEvent(p, id, e), !alive));
+        list.extend(self.tw_deliveries(Key::AnyEE(p), Cause::EntityEvent(p, id, e), false));
         self.payload_apply(id, &list)?;
         self.process_deliveries(list)
     }
@@ -1644,6 +1660,17 @@ impl<'a> Checker<'a>
                 {
                     self.revoke(i, &trigs);
                     if self.ents[e].alive && !self.ents[e].ereg.iter().any(|r| r.inst == i) { self.ents[e].ewr[k as usize] = None; }
+                }
+            }
+            Issued::EwrRemoveMany(k, ents, trigs) =>
+            {
+                for (e, mask) in &ents { self.ents[*e].ewr_mask[k as usize] &= !mask; }
+                if let Some(i) = self.ewr_inst(k)
+                {
+                    self.revoke(i, &trigs);
+                    // data is removed from every named entity that no longer has a trigger of this reactor
+                    let named: Vec<EntId> = trigs.iter().filter_map(|t| match t { MTrig::Ent(e, _) => Some(*e), _ => None }).collect();
+                    for e in named { if self.ents[e].alive && !self.ents[e].ereg.iter().any(|r| r.inst == i) { self.ents[e].ewr[k as usize] = None; } }
                 }
             }
             Issued::CmdSyscall(kind, key, input) => self.sys_call(kind, key, input, true, u)?,
@@ -1972,7 +1999,16 @@ impl<'a> Checker<'a>
             SysKind::Plain | SysKind::Validated => {}
             SysKind::Once => { persist = false; }
             SysKind::Named(_) => { if cmd { return Ok(()); } self.sys.named.insert(state); }
-            SysKind::NamedDirect(_) => { if cmd { return Ok(()); } if !self.sys.named.contains(&state) || self.sys.running.contains(&state) { runs = false; } }
+            SysKind::NamedDirect(_) =>
+            {
+                if cmd { return Ok(()); }
+                if !self.sys.named.contains(&state) { runs = false; }
+                else if self.sys.running.contains(&state)
+                {
+                    // the slot is empty while the system runs, unless an inner recursive call has refilled it: unspecified
+                    runs = matches!(self.peek()?, Some(Ev::SysBody { .. }));
+                }
+            }
             SysKind::RegisterNamed(_) =>
             {
                 if cmd { return Ok(()); }
@@ -1993,16 +2029,20 @@ impl<'a> Checker<'a>
                 }
             }
         }
-        if runs && persist && self.sys.running.contains(&state) { return bail("same-key recursive syscall: state persistence of the inner call is documented as unsupported (A3)"); }
+        // documented: when a system is called recursively only the outer-most invocation's state persists; inner ones start fresh
+        let mut fresh = false;
+        if runs && persist && self.sys.running.contains(&state) { persist = false; fresh = true; self.stats.sys_recursive += 1; }
         let mut out = None;
         if runs
         {
-            let n = if persist { self.sys.counts.get(&state).copied().unwrap_or(0) + 1 } else { 1 };
+            let mut n = if persist { self.sys.counts.get(&state).copied().unwrap_or(0) + 1 } else { 1 };
             let input = pack(state, value);
             match self.peek()?.cloned()
             {
                 Some(Ev::SysBody { key: k2, n: n2, input: i2 }) if k2 == fkey && i2 == input =>
                 {
+                    // inner invocations of a recursive call: their state is unspecified (fresh, or shared among the inner ones)
+                    if fresh { n = n2; }
                     if n2 != n { fail!(self, "C17", "syscall-state", &["C13"], "call through {kind:?} key {key}: the system's Local shows {n2}, expected {n} (state must persist per key and be independent between keys)"); }
                     self.advance()?;
                 }
@@ -2014,7 +2054,8 @@ impl<'a> Checker<'a>
             let saved = self.sender;
             self.sender = (CALLEE_BASE + state, seq);
             let prog: &'a Program = self.prog;
-            let script: &'a [Op] = prog.callee_script(fkey, n);
+            self.sys.calls_per_key[fkey as usize % 3] += 1;
+            let script: &'a [Op] = prog.callee_script(fkey, self.sys.calls_per_key[fkey as usize % 3]);
             let (issued, _) = self.issue_script(script, CALLEE_BASE + state, seq, false)?;
             match self.peek()?
             {
@@ -2024,7 +2065,7 @@ impl<'a> Checker<'a>
             // everything the callee queued is applied before the call returns
             self.apply_issued(issued)?;
             self.sender = saved;
-            self.sys.running.retain(|s| *s != state);
+            if let Some(pos) = self.sys.running.iter().rposition(|s| *s == state) { self.sys.running.remove(pos); }
             if persist { self.sys.counts.insert(state, n); }
             out = Some((value & 0xFFFF) * 1000 + n);
         }
@@ -2077,6 +2118,7 @@ pub struct SysModel
     /// (function key, alive)
     spawned: [Option<(u8, bool)>; 4],
     call_seq: u32,
+    calls_per_key: [u32; 3],
 }
 impl SysModel
 {
